@@ -8,6 +8,7 @@ package p1x
 import (
 	"bufio"
 	"bytes"
+	"context"
 	"crypto/sha256"
 	"errors"
 	"fmt"
@@ -16,6 +17,7 @@ import (
 	"strconv"
 	"strings"
 	"sync"
+	"syscall"
 	"time"
 
 	"verifharness/hx"
@@ -179,6 +181,7 @@ type Msg struct {
 	Body     []byte // kept only if keepBody
 	Complete bool   // body framing terminated properly
 	Chunks   []int  // chunk sizes seen (chunked only)
+	Early    bool   // origin side: the answer was sent before the whole body had been read
 	Err      string // "" if parsed OK (possibly incomplete body)
 	EOF      bool   // the peer closed (or reset) while/after this message
 	Raw      int    // bytes consumed
@@ -334,6 +337,20 @@ func errName(err error) string {
 
 // ReadRequest parses one request from br (origin side).
 func ReadRequest(br *bufio.Reader, keep bool) (*Msg, error) {
+	m, err := ReadRequestHead(br)
+	if err != nil {
+		return nil, err
+	}
+	readBody(br, m, keep)
+	if m.Err != "" || !m.Complete {
+		return m, fmt.Errorf("request body: %s eof=%v", m.Err, m.EOF)
+	}
+	return m, nil
+}
+
+// ReadRequestHead parses a request head and decides the body framing; the
+// body is left unread.
+func ReadRequestHead(br *bufio.Reader) (*Msg, error) {
 	head, err := readHead(br, 1<<20)
 	if err != nil {
 		return nil, err
@@ -358,10 +375,6 @@ func ReadRequest(br *bufio.Reader, keep bool) (*Msg, error) {
 		m.Framing = "c"
 	default:
 		m.Framing = "n"
-	}
-	readBody(br, m, keep)
-	if m.Err != "" || !m.Complete {
-		return m, fmt.Errorf("request body: %s eof=%v", m.Err, m.EOF)
 	}
 	return m, nil
 }
@@ -440,6 +453,11 @@ type Origin struct {
 	handle func(idx int, m *Msg) Action
 	wg     sync.WaitGroup
 	keep   bool
+	// Early, if set, is asked after the head of a Content-Length request has
+	// been read: -1 = read the whole body before answering (the default),
+	// k >= 0 = answer after k bytes of the body; the rest is read and thrown
+	// away afterwards.
+	Early func(m *Msg) int
 	// Raw, if set, is called with a fresh connection instead of the HTTP loop.
 	Raw func(c net.Conn)
 }
@@ -447,7 +465,22 @@ type Origin struct {
 // NewOrigin starts an origin; handle is called (serialised) for every request
 // with its arrival index.
 func NewOrigin(keepBodies bool, handle func(idx int, m *Msg) Action) (*Origin, error) {
-	l, err := net.Listen("tcp", "127.0.0.1:0")
+	return NewOriginBuf(keepBodies, 0, handle)
+}
+
+// NewOriginBuf is NewOrigin with a receive buffer of rcvbuf bytes (0 = system
+// default) on the listening socket, inherited by every accepted connection,
+// so that an origin that does not read exerts back pressure after a few KiB.
+func NewOriginBuf(keepBodies bool, rcvbuf int, handle func(idx int, m *Msg) Action) (*Origin, error) {
+	lc := net.ListenConfig{}
+	if rcvbuf > 0 {
+		lc.Control = func(network, address string, c syscall.RawConn) error {
+			return c.Control(func(fd uintptr) {
+				syscall.SetsockoptInt(int(fd), syscall.SOL_SOCKET, syscall.SO_RCVBUF, rcvbuf)
+			})
+		}
+	}
+	l, err := lc.Listen(context.Background(), "tcp", "127.0.0.1:0")
 	if err != nil {
 		return nil, err
 	}
@@ -482,7 +515,29 @@ func (o *Origin) serve(c net.Conn) {
 	br := bufio.NewReaderSize(c, 64*1024)
 	for {
 		c.SetReadDeadline(time.Now().Add(60 * time.Second))
-		m, err := ReadRequest(br, o.keep)
+		m, err := ReadRequestHead(br)
+		rest := 0
+		if err == nil {
+			k := -1
+			if o.Early != nil && m.Framing == "c" {
+				k = o.Early(m)
+			}
+			if k >= 0 {
+				cl, _ := strconv.Atoi(Vals(m.Hdrs, "Content-Length")[0])
+				if k > cl {
+					k = cl
+				}
+				if _, e2 := io.CopyN(io.Discard, br, int64(k)); e2 != nil {
+					return
+				}
+				m.Early, m.BodyLen, rest = true, k, cl-k
+			} else {
+				readBody(br, m, o.keep)
+				if m.Err != "" || !m.Complete {
+					err = fmt.Errorf("request body: %s eof=%v", m.Err, m.EOF)
+				}
+			}
+		}
 		if err != nil {
 			if m != nil || (err != io.EOF && !isClose(err)) {
 				o.mu.Lock()
@@ -504,6 +559,14 @@ func (o *Origin) serve(c net.Conn) {
 		}
 		if a.Close {
 			return
+		}
+		if rest > 0 {
+			// the unread part of the upload; the proxy may give up on this
+			// connection instead of finishing it
+			c.SetReadDeadline(time.Now().Add(60 * time.Second))
+			if _, err := io.CopyN(io.Discard, br, int64(rest)); err != nil {
+				return
+			}
 		}
 	}
 }
